@@ -70,7 +70,27 @@ fn parse_case(ctx: &mut Ctx, s: &str) {
     if got != want {
         ctx.fail("coord-parse-vs-forms", s, &format!("parse gives {got}, the five forms give {want}"));
     }
+    per_kind(ctx, s, &want);
     ctx.case("coord", &[enc(s)], &got);
+}
+
+/// The five per-kind `from_str` (anchored next to `SchemaCoordinate::from_str`, but hidden behind its cascade:
+/// e.g. `DirectiveCoordinate::from_str` is only reached for inputs that start with `@`): each accepts exactly
+/// the strings of its own form and gives the same names.
+fn per_kind(ctx: &mut Ctx, s: &str, want: &str) {
+    let got: [(&str, Option<String>); 5] = [
+        ("type:", s.parse::<TypeCoordinate>().ok().map(|c| show(&c.into()))),
+        ("attr:", s.parse::<TypeAttributeCoordinate>().ok().map(|c| show(&c.into()))),
+        ("fieldarg:", s.parse::<FieldArgumentCoordinate>().ok().map(|c| show(&c.into()))),
+        ("dir:", s.parse::<DirectiveCoordinate>().ok().map(|c| show(&c.into()))),
+        ("dirarg:", s.parse::<DirectiveArgumentCoordinate>().ok().map(|c| show(&c.into()))),
+    ];
+    for (prefix, g) in got {
+        let expect = if want.starts_with(prefix) { Some(want.to_string()) } else { None };
+        if g != expect {
+            ctx.fail("coord-perkind-vs-forms", s, &format!("the `{prefix}` from_str gives {g:?}, the five forms give {expect:?}"));
+        }
+    }
 }
 
 const SCHEMAS: [&str; 3] = [
@@ -101,6 +121,106 @@ fn export_schema(s: &Schema) -> String {
     out.join(";")
 }
 
+/// What the coordinate denotes in `schema`, found by a plain linear scan over the public maps with string
+/// comparison (no `lookup`, no `get`): the address of the element, or `None` when there is none.
+#[derive(PartialEq, Debug, Clone, Copy)]
+enum Elem { Type(usize), Directive(usize), Field(usize), InputField(usize), EnumValue(usize), Argument(usize) }
+
+fn addr<T>(r: &T) -> usize { r as *const T as usize }
+
+fn expected(schema: &Schema, coord: &SchemaCoordinate) -> Option<Elem> {
+    let find_type = |n: &str| schema.types.iter().find(|(k, _)| k.as_str() == n).map(|(_, v)| v);
+    let find_dir = |n: &str| schema.directive_definitions.iter().find(|(k, _)| k.as_str() == n).map(|(_, v)| v);
+    let attr = |t: &str, a: &str| -> Option<Elem> {
+        match find_type(t)? {
+            ExtendedType::Enum(e) => e.values.iter().find(|(k, _)| k.as_str() == a).map(|(_, v)| Elem::EnumValue(addr(v))),
+            ExtendedType::InputObject(i) => i.fields.iter().find(|(k, _)| k.as_str() == a).map(|(_, v)| Elem::InputField(addr(v))),
+            ExtendedType::Object(o) => o.fields.iter().find(|(k, _)| k.as_str() == a).map(|(_, v)| Elem::Field(addr(v))),
+            ExtendedType::Interface(o) => o.fields.iter().find(|(k, _)| k.as_str() == a).map(|(_, v)| Elem::Field(addr(v))),
+            ExtendedType::Scalar(_) | ExtendedType::Union(_) => None,
+        }
+    };
+    match coord {
+        SchemaCoordinate::Type(c) => find_type(c.ty.as_str()).map(|t| Elem::Type(addr(t))),
+        SchemaCoordinate::Directive(c) => find_dir(c.directive.as_str()).map(|d| Elem::Directive(addr(d))),
+        SchemaCoordinate::TypeAttribute(c) => attr(c.ty.as_str(), c.attribute.as_str()),
+        SchemaCoordinate::FieldArgument(c) => {
+            let f = match find_type(c.ty.as_str())? {
+                ExtendedType::Object(o) => o.fields.iter().find(|(k, _)| k.as_str() == c.field.as_str()).map(|(_, v)| v)?,
+                ExtendedType::Interface(o) => o.fields.iter().find(|(k, _)| k.as_str() == c.field.as_str()).map(|(_, v)| v)?,
+                _ => return None,
+            };
+            f.arguments.iter().find(|a| a.name.as_str() == c.argument.as_str()).map(|a| Elem::Argument(addr(a)))
+        }
+        SchemaCoordinate::DirectiveArgument(c) => {
+            find_dir(c.directive.as_str())?.arguments.iter().find(|a| a.name.as_str() == c.argument.as_str()).map(|a| Elem::Argument(addr(a)))
+        }
+    }
+}
+
+fn lookup_one(ctx: &mut Ctx, schema: &Schema, exported: &str, c: &str) {
+    let Ok(coord) = c.parse::<SchemaCoordinate>() else { ctx.fail("coord-pool-unparseable", c, "generated coordinate did not parse"); return };
+    let mut got_elem: Option<Elem> = None;
+    let got = match coord.lookup(schema) {
+        Ok(SchemaCoordinateLookup::Type(t)) => {
+            got_elem = Some(Elem::Type(addr(t)));
+            if let SchemaCoordinate::Type(tc) = &coord { if t.name() != &tc.ty { ctx.fail("lookup-wrong-element", c, "type has another name"); } }
+            "ok:type"
+        }
+        Ok(SchemaCoordinateLookup::Directive(d)) => {
+            got_elem = Some(Elem::Directive(addr(d)));
+            if let SchemaCoordinate::Directive(dc) = &coord { if d.name != dc.directive { ctx.fail("lookup-wrong-element", c, "directive has another name"); } }
+            "ok:directive"
+        }
+        Ok(SchemaCoordinateLookup::Field(f)) => {
+            got_elem = Some(Elem::Field(addr(f)));
+            if let SchemaCoordinate::TypeAttribute(tc) = &coord { if f.name != tc.attribute { ctx.fail("lookup-wrong-element", c, "field has another name"); } }
+            "ok:field"
+        }
+        Ok(SchemaCoordinateLookup::InputField(f)) => {
+            got_elem = Some(Elem::InputField(addr(f)));
+            if let SchemaCoordinate::TypeAttribute(tc) = &coord { if f.name != tc.attribute { ctx.fail("lookup-wrong-element", c, "input field has another name"); } }
+            "ok:inputfield"
+        }
+        Ok(SchemaCoordinateLookup::EnumValue(f)) => {
+            got_elem = Some(Elem::EnumValue(addr(f)));
+            if let SchemaCoordinate::TypeAttribute(tc) = &coord { if f.value != tc.attribute { ctx.fail("lookup-wrong-element", c, "enum value has another name"); } }
+            "ok:enumvalue"
+        }
+        Ok(SchemaCoordinateLookup::Argument(a)) => {
+            got_elem = Some(Elem::Argument(addr(a)));
+            let want = match &coord {
+                SchemaCoordinate::FieldArgument(fc) => Some(&fc.argument),
+                SchemaCoordinate::DirectiveArgument(dc) => Some(&dc.argument),
+                _ => None,
+            };
+            if want != Some(&a.name) { ctx.fail("lookup-wrong-element", c, "argument has another name"); }
+            "ok:argument"
+        }
+        Ok(_) => "ok:other",
+        Err(_) => "err",
+    };
+    // "the element with exactly those names": the very element a linear scan of the schema finds (same address —
+    // an equally named field of ANOTHER type, or an equally named argument of another field, is the wrong element)
+    let want_elem = expected(schema, &coord);
+    if got_elem != want_elem && got != "ok:other" {
+        ctx.fail("lookup-not-the-element", c, &format!("lookup gives {got} {got_elem:?}, scanning the schema gives {want_elem:?}"));
+    }
+    // the kind-specific convenience lookups must agree with the general one
+    if let SchemaCoordinate::TypeAttribute(tc) = &coord {
+        let f = tc.lookup_field(schema).ok().map(|f| Elem::Field(addr(f)));
+        let i = tc.lookup_input_field(schema).ok().map(|f| Elem::InputField(addr(f)));
+        let e = tc.lookup_enum_value(schema).ok().map(|f| Elem::EnumValue(addr(f)));
+        let pick = |k: fn(&Elem) -> bool| want_elem.filter(|x| k(x));
+        if f != pick(|x| matches!(x, Elem::Field(_))) || i != pick(|x| matches!(x, Elem::InputField(_))) || e != pick(|x| matches!(x, Elem::EnumValue(_))) {
+            ctx.fail("lookup-perkind", c, &format!("lookup_field/lookup_input_field/lookup_enum_value give {f:?}/{i:?}/{e:?}, scanning the schema gives {want_elem:?}"));
+        }
+    }
+    ctx.stat(&format!("lookup:{got}"));
+    if got != "err" { ctx.nontrivial(&format!("{}{c}", exported.len())); }
+    ctx.case("lookup", &[enc(exported), enc(c)], got);
+}
+
 fn lookup_cases(ctx: &mut Ctx) {
     for src in SCHEMAS {
         let schema = match Schema::parse(src, "s.graphql") { Ok(s) => s, Err(e) => e.partial };
@@ -124,43 +244,169 @@ fn lookup_cases(ctx: &mut Ctx) {
                 for a in &pool { coords.push(format!("{t}.{f}({a}:)")); }
             }
         }
-        for c in coords {
-            let Ok(coord) = c.parse::<SchemaCoordinate>() else { ctx.fail("coord-pool-unparseable", &c, "generated coordinate did not parse"); continue };
-            let got = match coord.lookup(&schema) {
-                Ok(SchemaCoordinateLookup::Type(t)) => {
-                    if let SchemaCoordinate::Type(tc) = &coord { if t.name() != &tc.ty { ctx.fail("lookup-wrong-element", &c, "type has another name"); } }
-                    "ok:type"
-                }
-                Ok(SchemaCoordinateLookup::Directive(d)) => {
-                    if let SchemaCoordinate::Directive(dc) = &coord { if d.name != dc.directive { ctx.fail("lookup-wrong-element", &c, "directive has another name"); } }
-                    "ok:directive"
-                }
-                Ok(SchemaCoordinateLookup::Field(f)) => {
-                    if let SchemaCoordinate::TypeAttribute(tc) = &coord { if f.name != tc.attribute { ctx.fail("lookup-wrong-element", &c, "field has another name"); } }
-                    "ok:field"
-                }
-                Ok(SchemaCoordinateLookup::InputField(f)) => {
-                    if let SchemaCoordinate::TypeAttribute(tc) = &coord { if f.name != tc.attribute { ctx.fail("lookup-wrong-element", &c, "input field has another name"); } }
-                    "ok:inputfield"
-                }
-                Ok(SchemaCoordinateLookup::EnumValue(f)) => {
-                    if let SchemaCoordinate::TypeAttribute(tc) = &coord { if f.value != tc.attribute { ctx.fail("lookup-wrong-element", &c, "enum value has another name"); } }
-                    "ok:enumvalue"
-                }
-                Ok(SchemaCoordinateLookup::Argument(a)) => {
-                    let want = match &coord {
-                        SchemaCoordinate::FieldArgument(fc) => Some(&fc.argument),
-                        SchemaCoordinate::DirectiveArgument(dc) => Some(&dc.argument),
-                        _ => None,
-                    };
-                    if want != Some(&a.name) { ctx.fail("lookup-wrong-element", &c, "argument has another name"); }
-                    "ok:argument"
-                }
-                Ok(_) => "ok:other",
-                Err(_) => "err",
+        for c in coords { lookup_one(ctx, &schema, &exported, &c); }
+    }
+}
+
+/// "Same names everywhere": every kind of type carries attributes / arguments drawn from the SAME three names,
+/// so a lookup that goes to the wrong type, the wrong field, the wrong namespace (types vs directives) or the
+/// wrong position in an argument list still finds *something* of the right name. Six rotations give every kind
+/// every name set; all coordinates over the pool are looked up (the verdict through the `lookup` stream, the
+/// identity of the element through the address oracle).
+fn collision_family(ctx: &mut Ctx) {
+    let n = ["a", "b", "c"];
+    let kinds = ["O", "I", "N", "E", "U", "S"];
+    for rot in 0..6usize {
+        // type names: the six kind letters rotated, so that e.g. the name `E` is an enum in one schema and an object in the next
+        let name = |k: usize| kinds[(k + rot) % 6];
+        let (x, y, z) = (n[rot % 3], n[(rot + 1) % 3], n[(rot + 2) % 3]);
+        let src = format!(
+            "type {o} implements {i} {{ {x}({x}: Int, {y}: Int): Int {y}({y}: Int, {z}: Int, {x}: Int): Int {z}: Int }}
+             interface {i} {{ {x}({y}: Int): Int {y}({x}: Int, {z}: Int): Int }}
+             input {inp} {{ {x}: Int {y}: Int }}
+             enum {e} {{ {x} {z} }}
+             union {u} = {o}
+             scalar {s}
+             directive @{x}({x}: Int, {y}: Int) on FIELD
+             directive @{y}({y}: Int) on FIELD
+             directive @{o}({z}: Int, {x}: Int) on FIELD
+             directive @{e} on FIELD
+             extend type {o} {{ {o}({o}: Int): Int }}
+             schema {{ query: {o} }}",
+            o = name(0), i = name(1), inp = name(2), e = name(3), u = name(4), s = name(5));
+        let schema = match Schema::parse(&src, "s.graphql") { Ok(s) => s, Err(e) => e.partial };
+        let exported = export_schema(&schema);
+        let pool = ["a", "b", "c", "O", "I", "N", "E", "U", "S", "zz", "__typename", "Int"];
+        let mut n_c = 0u64;
+        for t in pool {
+            lookup_one(ctx, &schema, &exported, t);
+            lookup_one(ctx, &schema, &exported, &format!("@{t}"));
+            n_c += 2;
+            for f in pool {
+                lookup_one(ctx, &schema, &exported, &format!("{t}.{f}"));
+                lookup_one(ctx, &schema, &exported, &format!("@{t}({f}:)"));
+                n_c += 2;
+                for a in pool { lookup_one(ctx, &schema, &exported, &format!("{t}.{f}({a}:)")); n_c += 1; }
+            }
+        }
+        ctx.stat_n("family:collision_lookups", n_c);
+    }
+}
+
+/// Generated schemas (the C14/C15 generator): every coordinate that exists in the schema must be found, and the
+/// names of one element combined with the names of another (attribute of type A under type B, argument of field f
+/// under field g) must be found exactly when the scan finds them.
+fn generated_schema_family(ctx: &mut Ctx) {
+    let n_schemas = if ctx.thorough { 300 } else { 25 };
+    let per_schema_cross = if ctx.thorough { 400 } else { 150 };
+    for _ in 0..n_schemas {
+        let defs = crate::schemagen::Gen::new(&mut ctx.rng).valid();
+        let src = crate::schemagen::print_doc(&defs);
+        let schema = match Schema::parse(&src, "g.graphql") { Ok(s) => s, Err(e) => e.partial };
+        let exported = export_schema(&schema);
+        if exported.contains('\t') || exported.contains('\n') { continue; }
+        let mut present: Vec<String> = vec![];
+        let mut tnames: Vec<String> = vec![]; let mut anames: Vec<String> = vec![]; let mut argnames: Vec<String> = vec![]; let mut dnames: Vec<String> = vec![];
+        let mut tf: Vec<(String, String)> = vec![];
+        for (name, ty) in &schema.types {
+            tnames.push(name.to_string());
+            present.push(name.to_string());
+            let fields: Vec<(String, Vec<String>)> = match ty {
+                ExtendedType::Object(o) => o.fields.values().map(|f| (f.name.to_string(), f.arguments.iter().map(|a| a.name.to_string()).collect())).collect(),
+                ExtendedType::Interface(o) => o.fields.values().map(|f| (f.name.to_string(), f.arguments.iter().map(|a| a.name.to_string()).collect())).collect(),
+                ExtendedType::InputObject(o) => o.fields.keys().map(|k| (k.to_string(), vec![])).collect(),
+                ExtendedType::Enum(e) => e.values.keys().map(|k| (k.to_string(), vec![])).collect(),
+                _ => vec![],
             };
-            if got != "err" { ctx.nontrivial(&format!("{}{c}", exported.len())); }
-            ctx.case("lookup", &[enc(&exported), enc(&c)], got);
+            for (f, args) in fields {
+                if name.starts_with("__") && present.len() > 400 { continue; }
+                present.push(format!("{name}.{f}"));
+                tf.push((name.to_string(), f.clone()));
+                anames.push(f.clone());
+                for a in args { present.push(format!("{name}.{f}({a}:)")); argnames.push(a); }
+            }
+        }
+        for (name, d) in &schema.directive_definitions {
+            dnames.push(name.to_string());
+            present.push(format!("@{name}"));
+            for a in &d.arguments { present.push(format!("@{name}({}:)", a.name)); argnames.push(a.name.to_string()); }
+        }
+        for v in [&mut anames, &mut argnames] { v.sort(); v.dedup(); }
+        ctx.stat_n("family:generated_present_coordinates", present.len() as u64);
+        for c in &present {
+            // oracle-only sanity of the family itself: a coordinate read off the schema must resolve
+            if let Ok(k) = c.parse::<SchemaCoordinate>() { if k.lookup(&schema).is_err() { ctx.fail("lookup-misses-existing", c, "a coordinate read off the schema's own maps is not found"); } }
+            lookup_one(ctx, &schema, &exported, c);
+        }
+        for _ in 0..per_schema_cross {
+            let c = match ctx.rng.below(4) {
+                0 => format!("{}.{}", ctx.rng.pick(&tnames), ctx.rng.pick(&anames)),
+                1 if !argnames.is_empty() => { let (t, f) = ctx.rng.pick(&tf).clone(); format!("{t}.{f}({}:)", ctx.rng.pick(&argnames)) }
+                2 if !argnames.is_empty() => format!("@{}({}:)", ctx.rng.pick(&dnames), ctx.rng.pick(&argnames)),
+                _ => { let t = ctx.rng.pick(&tnames).clone(); if ctx.rng.chance(1, 2) { format!("@{t}") } else { ctx.rng.pick(&dnames).clone() } }
+            };
+            lookup_one(ctx, &schema, &exported, &c);
+        }
+        ctx.stat_n("family:generated_cross_coordinates", per_schema_cross as u64);
+    }
+}
+
+/// Every ASCII character (and a few non-ASCII look-alikes) at the start, in the middle and at the end of every
+/// Name slot of every form: the Name grammar's boundaries (`@`/`A`, `Z`/`[`, `` ` ``/`a`, `z`/`{`, `/`/`0`,
+/// `9`/`:`, `_`) at every place a coordinate takes a Name.
+fn char_sweep(ctx: &mut Ctx) {
+    let forms: [(&str, usize); 5] = [("{0}", 1), ("{0}.{1}", 2), ("{0}.{1}({2}:)", 3), ("@{0}", 1), ("@{0}({1}:)", 2)];
+    let mut chars: Vec<char> = (0u8..128).map(|b| b as char).collect();
+    chars.extend(['\u{80}', 'é', 'ı', '\u{212A}', '０', 'Ａ', '\u{feff}', '\u{200b}', '\u{2028}', '😀']);
+    let mut n = 0u64;
+    for (form, slots) in forms {
+        for slot in 0..slots {
+            for pos in 0..4 {
+                for &ch in &chars {
+                    let name = match pos { 0 => format!("{ch}b"), 1 => format!("A{ch}b"), 2 => format!("Ab{ch}"), _ => ch.to_string() };
+                    let mut s = form.to_string();
+                    for k in 0..3 { s = s.replace(&format!("{{{k}}}"), if k == slot { &name } else { "Xy" }); }
+                    parse_case(ctx, &s);
+                    n += 1;
+                }
+            }
+        }
+    }
+    ctx.stat_n("family:char_sweep", n);
+}
+
+/// Token-level neighbourhoods of the five valid forms: all strings at edit distance ≤ 2 (delete / insert /
+/// replace one token) over the tokens Name, digit-name, `.`, `(`, `)`, `:`, `@`, space. The field-argument form
+/// has seven tokens, longer than the exhaustive alphabet enumeration reaches, so this is where its near-misses
+/// (`a.b(c)`, `a.b(c:`, `a.b(:c)`, `a(b:)`, `@a.b(c:)`, `a.b(c:)(d:)`, `a.b(c::)`, …) are produced systematically.
+fn token_edits(ctx: &mut Ctx) {
+    let toks = ["a", "B_1", "9", ".", "(", ")", ":", "@", " "];
+    let forms: [&[&str]; 5] = [&["a"], &["a", ".", "b"], &["a", ".", "b", "(", "c", ":", ")"], &["@", "a"], &["@", "a", "(", "c", ":", ")"]];
+    fn edits(v: &[String], toks: &[&str]) -> Vec<Vec<String>> {
+        let mut out = vec![];
+        for i in 0..v.len() { let mut w = v.to_vec(); w.remove(i); out.push(w); }
+        for i in 0..=v.len() { for t in toks { let mut w = v.to_vec(); w.insert(i, t.to_string()); out.push(w); } }
+        for i in 0..v.len() { for t in toks { if v[i] != *t { let mut w = v.to_vec(); w[i] = t.to_string(); out.push(w); } } }
+        out
+    }
+    let mut seen = std::collections::HashSet::new();
+    let depth = if ctx.thorough { 3 } else { 2 };
+    for f in forms {
+        let start: Vec<String> = f.iter().map(|s| s.to_string()).collect();
+        let mut layer = vec![start];
+        let mut expanded = std::collections::HashSet::new();
+        for d in 0..=depth {
+            let mut next = vec![];
+            for v in &layer {
+                let s = v.concat();
+                if !expanded.insert(v.clone()) { continue; }
+                if seen.insert(s.clone()) {
+                    parse_case(ctx, &s);
+                    ctx.stat(&format!("family:token_edits_distance_{d}"));
+                }
+                if d < depth && (d < 2 || v.len() <= 4) { next.extend(edits(v, &toks)); }
+            }
+            layer = next;
         }
     }
 }
@@ -172,6 +418,8 @@ pub fn run(ctx: &mut Ctx) {
     for_all_strings(&alphabet, k, |s| all.push(s.to_string()));
     ctx.stat_n("exhaustive_strings", all.len() as u64);
     for s in &all { parse_case(ctx, s); }
+    char_sweep(ctx);
+    token_edits(ctx);
     // longer, near-valid strings: mutate valid coordinates
     let names = ["a", "Ab_9", "_", "Query", "x0"];
     let n = if ctx.thorough { 200_000 } else { 20_000 };
@@ -195,4 +443,6 @@ pub fn run(ctx: &mut Ctx) {
         parse_case(ctx, &s);
     }
     lookup_cases(ctx);
+    collision_family(ctx);
+    generated_schema_family(ctx);
 }
